@@ -656,6 +656,28 @@ static void describeModel(const libcellml::ModelPtr &m, const char *label)
         }
         o << "]}";
     }
+    o << "],\"imports\":[";   // (name, import reference, url) of every imported units / component
+    {
+        bool firstI = true;
+        auto emit = [&](const std::string &name, const libcellml::ImportedEntityPtr &e) {
+            if (e->isImport() && e->importSource() != nullptr) {
+                o << (firstI ? "" : ",") << "[" << jstr(name) << "," << jstr(e->importReference()) << "," << jstr(e->importSource()->url()) << "]";
+                firstI = false;
+            }
+        };
+        for (size_t i = 0; i < m->unitsCount(); ++i) {
+            emit(m->units(i)->name(), m->units(i));
+        }
+        std::function<void(const libcellml::ComponentEntityPtr &, size_t)> walkI = [&](const libcellml::ComponentEntityPtr &e, size_t depth) {
+            for (size_t i = 0; i < e->componentCount(); ++i) {
+                emit(e->component(i)->name(), e->component(i));
+                if (depth < 2000) {
+                    walkI(e->component(i), depth + 1);
+                }
+            }
+        };
+        walkI(m, 0);
+    }
     o << "],\"math\":[";
     std::ostringstream vars; // parallel to "math": the (name, initial_value) pairs of the owning component
     bool first = true;
